@@ -208,6 +208,8 @@ pub fn run_cases(kind: &str, seed: u64, total: u64, workers: u64) -> Outcome {
                     }
                 }
                 let status = child.wait();
+                // the child is gone: its pid must not be signalled later (it may be reused by then)
+                pids.lock().unwrap().retain(|p| *p != child.id());
                 let clean = matches!(&status, Ok(s) if s.success());
                 if clean || stop.load(Ordering::SeqCst) {
                     break;
